@@ -62,6 +62,9 @@ FIXED += [
     ("C01", "5f45e0f", "a search root whose name begins with ~ (`from ~t`, `from '~t/sub'`) was replaced by / joined to the home directory (audit agent; C01 now has special-root cases)", []),
     ("C01", "2e2ec5c", "search root `/` (and the default root with cwd /): the depth window was off by one below level 1 because calc_depth(\"/\") == calc_depth(\"/tmp\") (audit agent; C01 now searches `/` inside a chroot jail)", []),
     ("C01", "b05f7a6", "the set of visited directories was keyed by inode number without the device: with several file systems below the root (or roots on different file systems) directories whose inode number repeats were listed but not entered (audit agent; C01 now builds trees over several tmpfs mounts in a private mount namespace)", []),
+    ("C02", "0a7cabf", "`name = ext`: wildcard characters in the right-hand column's VALUE were read as a pattern (for a file `a.*` every name equalled its extension) (audit agent; C02's model no longer exempts such values)", []),
+    ("C03", "fb4fd25", "`>`, `>=`, `<`, `<=` and BETWEEN on a text value were false for every entry and so were their negations (`name > 'b'` and `not name > 'b'` both empty): `not A` was not the complement of A (audit agent)", []),
+    ("C03", "bb45f3e", "LIKE / regular expressions on numbers, dates and booleans were false for every entry and so were their negations (`size like '1%'`, `size not like '1%'`) (audit agent)", []),
     ("C10", "9b6a0a7", "day('2020-0\u0661-01'): the date pattern matched non-ASCII digits and the integer parse of the capture was unwrapped (found by the eval_total fuzz target after 2e7 executions)", ["date-non-ascii-digit"]),
     ("C10", "69a0b27", "`name from './[a' depth 1 rx`: a malformed pattern in a regexp search root panicked (unwrap of Regex::new)", ["regexp-root-malformed"]),
 ]
